@@ -452,18 +452,33 @@ func c19less(p *core.Prog, parent *ssa.Function, less ssa.Value, sorted ssa.Valu
 
 // c19descriptor: on the IsAscending edge result = key1.CompareTo(key2), otherwise key2.CompareTo(key1); keys from the same descriptor applied to item1/item2.
 func c19descriptor(p *core.Prog, f *ssa.Function, sign int64) (bool, string) {
-	collect := func(g *ssa.Function) []*ssa.Call {
-		var out []*ssa.Call
-		core.Instrs(g, func(ins ssa.Instruction) {
-			if call, ok := ins.(*ssa.Call); ok && call.Call.IsInvoke() && call.Call.Method.Name() == "CompareTo" {
-				out = append(out, call)
+	// the CompareTo calls of the comparator: in f itself or in unexported helpers it calls (not through the
+	// recursive step)
+	var cmps []core.Found
+	for _, fd := range core.DeepFind(p, f, func(ins ssa.Instruction) bool {
+		call, ok := ins.(*ssa.Call)
+		return ok && call.Call.IsInvoke() && call.Call.Method.Name() == "CompareTo"
+	}) {
+		rec := false
+		for _, sc := range fd.Stack {
+			if core.Callee(&sc.Call) == f {
+				rec = true
 			}
-		})
-		return out
+		}
+		if !rec {
+			cmps = append(cmps, fd)
+		}
 	}
-	// key of item k as seen in f: call of descriptor.TransformedBy()(item_k)
-	keyOfInF := func(v ssa.Value) int {
-		call, ok := core.Resolve(v).(*ssa.Call)
+	if len(cmps) == 0 {
+		return false, "no CompareTo call found in the descriptor comparator"
+	}
+	// key of item k: the call descriptor.TransformedBy()(item_k) in f, seen from the frame the value lives in
+	keyOf := func(v ssa.Value, stack []*ssa.Call) int {
+		u, st := core.Up(core.Unwrap(core.Resolve(v)), stack)
+		if len(st) != 0 {
+			return -1
+		}
+		call, ok := core.Unwrap(core.Resolve(u)).(*ssa.Call)
 		if !ok || len(call.Call.Args) != 1 {
 			return -1
 		}
@@ -474,79 +489,52 @@ func c19descriptor(p *core.Prog, f *ssa.Function, sign int64) (bool, string) {
 		}
 		return -1
 	}
-	host := f
-	keyOf := keyOfInF
-	cmps := collect(f)
-	var via *ssa.Call
-	if len(cmps) == 0 {
-		// the comparison may live in a helper called from f with the two keys
-		core.Instrs(f, func(ins ssa.Instruction) {
-			if call, ok := ins.(*ssa.Call); ok {
-				if g := core.Callee(&call.Call); g != nil && p.InRepo(g) && g != f && len(collect(g)) > 0 {
-					host, via = g, call
-				}
-			}
-		})
-		if via == nil {
-			return false, "no CompareTo call found in the descriptor comparator"
-		}
-		cmps = collect(host)
-		keyOf = func(v ssa.Value) int {
-			v = core.Unwrap(core.Resolve(v))
-			for i, prm := range host.Params {
-				if v == ssa.Value(prm) && i < len(via.Call.Args) {
-					return keyOfInF(via.Call.Args[i])
-				}
-			}
-			return -1
-		}
-		// the helper's verdict must flow into f's result
-		flows := false
-		for _, r := range *via.Referrers() {
-			switch r.(type) {
-			case *ssa.Store, *ssa.Phi, *ssa.Return, *ssa.BinOp:
-				flows = true
-			}
-		}
-		if !flows {
-			return false, "the comparison helper's result does not flow into the comparator's result"
-		}
-	}
 	if len(cmps) != 2 {
 		return false, fmt.Sprintf("expected two CompareTo calls (ascending / descending), found %d", len(cmps))
 	}
-	for _, cm := range cmps {
+	// what the comparator can return
+	var results []core.Leaf
+	for _, rcase := range core.ReturnCases(f) {
+		results = append(results, core.Origins(p, rcase.Vals[0], nil)...)
+	}
+	for _, fd := range cmps {
+		cm := fd.Ins.(*ssa.Call)
+		// the blocks on the way: the call's own block and the block of every call of the chain, each in its frame
+		type frameBlock struct {
+			b  *ssa.BasicBlock
+			st []*ssa.Call
+		}
+		fbs := []frameBlock{{cm.Block(), fd.Stack}}
+		for i, sc := range fd.Stack {
+			fbs = append(fbs, frameBlock{sc.Block(), fd.Stack[:i]})
+		}
 		asc, known := false, false
-		for _, cnd := range core.EdgeFacts(cm.Block()) {
-			n := core.Normalize(cnd)
-			if call, ok := n.V.(*ssa.Call); ok && call.Call.IsInvoke() && call.Call.Method.Name() == "IsAscending" {
-				asc, known = n.True, true
+		for _, fb := range fbs {
+			for _, cnd := range core.EdgeFacts(fb.b) {
+				n := core.Normalize(cnd)
+				if call, ok := n.V.(*ssa.Call); ok && call.Call.IsInvoke() && call.Call.Method.Name() == "IsAscending" {
+					asc, known = n.True, true
+				}
 			}
 		}
 		if !known {
 			return false, "a CompareTo call is not selected by IsAscending()"
 		}
 		// the comparison is made for present keys: every nil test of a key on the way has the not-nil polarity
-		guards := core.EdgeCmps(cm.Block())
-		if via != nil {
-			guards = append(guards, core.EdgeCmps(via.Block())...)
-		}
-		for _, m := range guards {
-			if !core.IsNilConst(m.Y) {
-				continue
-			}
-			kk := keyOf(core.Unwrap(m.X))
-			if via != nil && kk < 0 {
-				kk = keyOfInF(core.Unwrap(m.X))
-			}
-			if kk >= 0 && m.Op == token.EQL {
-				return false, fmt.Sprintf("CompareTo is reached only when key%d is nil: keys that are present are never compared (every pair sorts as equal) and the call dereferences a nil key", kk+1)
+		for _, fb := range fbs {
+			for _, m := range core.EdgeCmps(fb.b) {
+				if !core.IsNilConst(m.Y) {
+					continue
+				}
+				if kk := keyOf(m.X, fb.st); kk >= 0 && m.Op == token.EQL {
+					return false, fmt.Sprintf("CompareTo is reached only when key%d is nil: keys that are present are never compared (every pair sorts as equal) and the call dereferences a nil key", kk+1)
+				}
 			}
 		}
-		recvK := keyOf(cm.Call.Value)
+		recvK := keyOf(cm.Call.Value, fd.Stack)
 		argK := -1
 		if len(cm.Call.Args) == 1 {
-			argK = keyOf(core.Unwrap(cm.Call.Args[0]))
+			argK = keyOf(cm.Call.Args[0], fd.Stack)
 		}
 		wantRecv, wantArg := 0, 1
 		if !asc {
@@ -557,9 +545,8 @@ func c19descriptor(p *core.Prog, f *ssa.Function, sign int64) (bool, string) {
 		}
 		// the result must flow to the returned value
 		flows := false
-		for _, r := range *cm.Referrers() {
-			switch r.(type) {
-			case *ssa.Store, *ssa.Phi, *ssa.Return, *ssa.BinOp:
+		for _, l := range results {
+			if l.Val == ssa.Value(cm) {
 				flows = true
 			}
 		}
